@@ -16,6 +16,7 @@
 -/
 import CTM.Lemmas.LevelLoop
 import CTM.Lemmas.Output
+import CTM.Model.Election
 
 namespace CTM
 namespace OutBridge
@@ -754,7 +755,7 @@ theorem lookup_filterMap_keys {β γ} (m : List (Nat × β)) (f : β → γ) :
       | none =>
         simp only [Option.map_none]
         exact lookup_filterMap_none m f ks l hnd'.1
-      | some e => simp [List.lookup]
+      | some e => simp
     · have hb : (l == k) = false := by simpa using he
       have hl' : l ∈ ks := by
         rcases List.mem_cons.mp hl with h | h
@@ -996,6 +997,25 @@ theorem toRecord_lookup {κ} {t0 t : RawTree} {vote : Oracle κ} (rt : RunTreeOK
       | some e => exact absurd ((hk l).mp (by rw [hlk]; rfl)) hl
     rw [this]
     exact lookup_filterMap_none o.levels toLevelRec t0.hierarchy l hl
+
+/-! ## the interpreted oracle: `choose_node` (group C's `Election.chooseCell`) -/
+
+/-- the answer of `_run_type_assignment` for one cell, read off the result of
+`choose_node`: winner, vote share, average correlation (always a float) and the
+runner-up tuples `(type, votes > 0, avg_corr, vote share)` -/
+def voteOfChoice (ch : Election.Choice) : Vote :=
+  { assignment := ch.winner, prob := ch.prob, corr := some ch.avgCorr,
+    runnersUp := some (ch.runners.map (fun r =>
+      { node := r.type, valid := r.valid, corr := r.avgCorr, prob := r.prob })) }
+
+/-- the two models agree on the write-back: D's `entryOf` of the interpreted
+vote is the dict with C's `keepRunners` as runner-up lists -/
+theorem entryOf_voteOfChoice (ch : Election.Choice) :
+    entryOf (voteOfChoice ch) =
+      { assignment := ch.winner, prob := ch.prob, corr := some ch.avgCorr,
+        ru := some (Election.keepRunners ch.runners) } := by
+  simp only [entryOf, voteOfChoice, Election.keepRunners, List.filter_map, List.map_map]
+  rfl
 
 /-! ## a concrete instance (non-vacuity examples of `Props/C15/Bridge`, `Props/C03/Bridge`) -/
 
